@@ -28,7 +28,8 @@ BUDGET = {
 }
 # extra runs (a fraction of the budget, run indices continue after the main ones) from another
 # profile whose histories exercise the same property from a different side
-EXTRA_PROFILE = {"C08": ("C08T", 0.25)}   # the log tools from the command line, between whole-program builds
+EXTRA_PROFILE = {"C08": ("C08T", 0.25),   # the log tools from the command line, between whole-program builds
+                 "C05": ("C05R", 0.25)}   # manifests with a generator statement that may fail itself
 SAN_SHARE = {"C13": 1.0}          # fraction of runs on the ASan+UBSan binary
 DEFAULT_SAN_SHARE = 0.08
 LOGDRV = {"C08", "C09"}
